@@ -8,7 +8,8 @@ Written from the property statement and the HTML syntax of a start tag:
   Everything on which the statement is silent makes the document AMBIGUOUS (reason returned) and the
   oracle clauses are then skipped: a tag or script block that is never closed, spaces around `=`, `href`
   without value or given twice, `<`/`>` inside an attribute value, quotes inside an unquoted value,
-  non-ASCII / exotic whitespace in a structural position (separator, unquoted value, attribute name).
+  non-ASCII / exotic whitespace in a structural position (separator, unquoted value, attribute name),
+  a non-ASCII letter that case-folds to ASCII (U+017F, U+212A, U+0131, U+0130) at the start of a tag name.
 * final(raw): ASCII-whitespace strip, then decoding of `&amp; &lt; &gt; &quot; &apos;` and of
   `&#D;` / `&#xH;` numeric references to ordinary characters.  Any other `&name` form, a numeric reference
   without `;` or to a control / surrogate / out-of-range code point, and whitespace (of any kind, raw or
@@ -21,6 +22,8 @@ from urllib.parse import urljoin, urlsplit
 
 WS = " \t\n\r\f"
 _LOWER = {c: c + 32 for c in range(65, 91)}
+# letters outside ASCII that an IGNORECASE unicode pattern matches against s, k, i (and their upper cases)
+_FOLDING = "ſKıİ"
 
 
 def ascii_lower(s):
@@ -102,6 +105,9 @@ def scan(doc):
         i = doc.find("<", i)
         if i < 0:
             return out, None
+        head = doc[i + 1:i + 9]
+        if not head.isascii() and any(ch in _FOLDING for ch in head):
+            return out, "non-ASCII letter that case-folds to an ASCII one at the start of a tag name"
         if low.startswith("<script", i):
             c = low[i + 7:i + 8]
             if c == "":
